@@ -4,13 +4,22 @@
 // assert() inside iwfsmfile.c is routed to a counter (release-build behaviour: execution continues) - the count is
 // printed as A=<n>; the oracle treats a failed internal assertion as evidence of an inconsistent map.
 #include "iwutils.h" /* pulls <assert.h> once; guarded, so the redefinition below stays in force */
-static int h_assert_failed;
+// One assert of iwfsmfile.c restates a check on CALLER-SUPPLIED arguments (the range guard of _fsm_set_bit_status_lw:
+// `fsm->bmlen * 8 >= offset_bits + length_bits`, followed by the `if` that returns IWFS_ERROR_FSM_SEGMENTATION).  Its
+// failures say "the caller passed a range behind the bitmap", not "the map is inconsistent"; they are counted
+// separately (U=<n>) so that the oracle can tell the two apart.
+#include <string.h>
+static int h_assert_failed, h_assert_user;
+static void h_assert_fail(const char *e) {
+  if (strstr(e, "bmlen * 8 >= offset_bits + length_bits")) ++h_assert_user; else ++h_assert_failed;
+}
 #undef assert
-#define assert(e_) ((e_) ? (void) 0 : (void) (++h_assert_failed))
+#define assert(e_) ((e_) ? (void) 0 : h_assert_fail(#e_))
 #include "fs/iwfsmfile.c"
 #include "hcommon.h"
 #include <sys/stat.h>
 #include <unistd.h>
+#include <fcntl.h>
 
 static IWFS_FSM F;
 static int is_open;
@@ -33,7 +42,7 @@ static void rle_bitmap(struct fsm *fsm) {
 }
 
 static void dump_state(void) {
-  if (!is_open || !F.impl) { printf(" | closed A=%d\n", h_assert_failed); return; }
+  if (!is_open || !F.impl) { printf(" | closed U=%d A=%d\n", h_assert_user, h_assert_failed); return; }
   struct fsm *fsm = F.impl;
   printf(" | T=");
   int k = 0;
@@ -47,8 +56,8 @@ static void dump_state(void) {
   IWFS_EXT_STATE st;
   memset(&st, 0, sizeof(st));
   fsm->pool.state(&fsm->pool, &st);
-  printf(" M=%" PRIu64 ":%" PRIu64 ":%u:%u F=%" PRId64 " S=%u:%" PRIu64 " A=%d\n", fsm->bmoff, fsm->bmlen, fsm->hdrlen,
-         (unsigned) fsm->bpow, (int64_t) st.fsize, fsm->crznum, fsm->crzsum, h_assert_failed);
+  printf(" M=%" PRIu64 ":%" PRIu64 ":%u:%u F=%" PRId64 " S=%u:%" PRIu64 " U=%d A=%d\n", fsm->bmoff, fsm->bmlen, fsm->hdrlen,
+         (unsigned) fsm->bpow, (int64_t) st.fsize, fsm->crznum, fsm->crzsum, h_assert_user, h_assert_failed);
 }
 
 static uint8_t pat(uint64_t seed, uint64_t i) {
@@ -80,7 +89,7 @@ int main(int argc, char **argv) {
     const char *c = tv[0];
     if (!strcmp(c, "open") && n >= 7) { // open bpow hdrlen bmlen strict notrim mmapall
       if (is_open) { F.close(&F); is_open = 0; }
-      h_assert_failed = 0;
+      h_assert_failed = h_assert_user = 0;
       iwrc rc = do_open(1, atoi(tv[1]), (uint32_t) strtoul(tv[2], 0, 10), strtoull(tv[3], 0, 10), atoi(tv[4]), atoi(tv[5]), atoi(tv[6]));
       printf("%" PRIu64, (uint64_t) rc); dump_state();
     } else if (!strcmp(c, "reopen") && n >= 4) { // reopen strict notrim mmapall
@@ -99,8 +108,24 @@ int main(int argc, char **argv) {
     } else if (!strcmp(c, "ffs") && n >= 2) {
       uint64_t x = strtoull(tv[1], 0, 10);
       printf("%u %" PRIu64 "\n", (unsigned) iwbits_find_first_sbit64(x), iwbits_reverse_64(x));
+    } else if (!strcmp(c, "hdr")) { // what the file header says right now (read through a descriptor of our own):
+      // [magic u32][bpow u8][bmoff u64][bmlen u64][crzsum u64][crznum u32] - what the next open will be told
+      uint8_t h[33];
+      int fd = open(path, O_RDONLY);
+      ssize_t rd = fd >= 0 ? pread(fd, h, sizeof(h), 0) : -1;
+      if (fd >= 0) close(fd);
+      if (rd != (ssize_t) sizeof(h)) { printf("?hdr-unreadable\n"); continue; }
+      uint64_t bo, bl, cs; uint32_t cn;
+      memcpy(&bo, h + 5, 8); memcpy(&bl, h + 13, 8); memcpy(&cs, h + 21, 8); memcpy(&cn, h + 29, 4);
+      printf("H=%" PRIu64 ":%" PRIu64 ":%u:%" PRIu64 "\n", IW_ITOHLL(bo), IW_ITOHLL(bl), (unsigned) IW_ITOHL(cn), IW_ITOHLL(cs));
     } else if (!is_open) {
       printf("?closed\n");
+    } else if (!strcmp(c, "sbs") && n >= 5) { // sbs off len v chk : _fsm_set_bit_status_lw as a dry run (range guard, strict probe)
+      int u0 = h_assert_user;
+      iwrc rc = _fsm_set_bit_status_lw(F.impl, strtoull(tv[1], 0, 10), strtoull(tv[2], 0, 10), atoi(tv[3]) != 0,
+                                       FSM_BM_DRY_RUN | (atoi(tv[4]) ? FSM_BM_STRICT : 0));
+      h_assert_user = u0; /* a probe of the harness, not a call of the client */
+      printf("%" PRIu64 "\n", (uint64_t) rc);
     } else if (!strcmp(c, "alloc") && n >= 4) { // alloc len hint flags [oracle]
       off_t addr = strtoll(tv[2], 0, 10), olen = 0;
       iwrc rc = F.allocate(&F, strtoll(tv[1], 0, 10), &addr, &olen, (iwfs_fsm_aflags) atoi(tv[3]));
@@ -144,7 +169,7 @@ int main(int argc, char **argv) {
       is_open = 0;
       struct stat st;
       int64_t sz = stat(path, &st) == 0 ? (int64_t) st.st_size : -1;
-      printf("%" PRIu64 " %" PRId64 " A=%d\n", (uint64_t) rc, sz, h_assert_failed);
+      printf("%" PRIu64 " %" PRId64 " U=%d A=%d\n", (uint64_t) rc, sz, h_assert_user, h_assert_failed);
     } else {
       printf("?\n");
     }
